@@ -382,7 +382,11 @@ def judge_e2e(t, seed, kind, nch, alg, msd, nxseg, only=None):
     else:
         step = max(1, Nf // 64)
         sels = np.concatenate([freq[::step], freq[:-1:step] + df / 2])
-    for dfi, d in enumerate(DFS):
+    combos = [(dfi, d, 1.5) for dfi, d in enumerate(DFS)]
+    if first_stage:
+        # the first-stage band is DF1 whatever DF2 is: also with the (unusual but legal) DF2 < DF1
+        combos.append((len(DFS), DFS[-1], 0.6 * DFS[-1] * df))
+    for dfi, d, DF2 in combos:
         if only is not None and dfi != only:
             continue
         case = dict(case0, dfi=dfi)
@@ -390,7 +394,9 @@ def judge_e2e(t, seed, kind, nch, alg, msd, nxseg, only=None):
         try:
             t.evaluations += 1
             if first_stage:
-                ss.mpe("a", sel_freq=list(sels), DF1=DF, DF2=1.5)
+                ss.mpe("a", sel_freq=list(sels), DF1=DF, DF2=DF2)
+                if DF2 < DF:
+                    t.outcomes["e2e first stage with DF2 < DF1"] += 1
             else:
                 ss.mpe("a", sel_freq=list(sels), DF=DF)
             Fn = np.asarray(a.result.Fn, float).ravel()
@@ -499,7 +505,7 @@ def explore(ctx):
                             "spectral matrices and the singular values themselves for others", {"level": "summary"})
     ctx.require("band clipped by a grid end", "largest ratio is not the largest sigma1 in the band",
                 "band limit falls on a mid-point (tie admitted)", "e2e FDD judged", "e2e FDD_MS judged",
-                "e2e EFDD judged", "e2e FSDD judged", "e2e EFDD_MS judged")
+                "e2e EFDD judged", "e2e FSDD judged", "e2e EFDD_MS judged", "e2e first stage with DF2 < DF1")
 
 
 def replay(case):
